@@ -69,9 +69,8 @@ type replayFile struct {
 // RunCases executes and judges all cases.
 func RunCases(env *Env, cases []Case) []Outcome {
 	outs := make([]Outcome, len(cases))
-	var flat []Req
-	type span struct{ lo, hi int }
-	spans := make([]span, len(cases))
+	var groups [][]Req
+	groupOf := make([]int, len(cases))
 	var seqIdx []int
 	var seqs [][]Req
 	for i, c := range cases {
@@ -79,12 +78,13 @@ func RunCases(env *Env, cases []Case) []Outcome {
 		if sc, ok := c.(SeqCase); ok && sc.Sequential() {
 			seqIdx = append(seqIdx, i)
 			seqs = append(seqs, rq)
+			groupOf[i] = -1
 			continue
 		}
-		spans[i] = span{len(flat), len(flat) + len(rq)}
-		flat = append(flat, rq...)
+		groupOf[i] = len(groups)
+		groups = append(groups, rq)
 	}
-	res := env.Pool.RunAll(flat)
+	res := env.Pool.RunGrouped(groups)
 	seqRes := env.Pool.RunSeqs(seqs)
 	isSeq := map[int]int{}
 	for k, i := range seqIdx {
@@ -95,7 +95,7 @@ func RunCases(env *Env, cases []Case) []Outcome {
 		if k, ok := isSeq[i]; ok {
 			rs = seqRes[k]
 		} else {
-			rs = res[spans[i].lo:spans[i].hi]
+			rs = res[groupOf[i]]
 		}
 		infra := ""
 		for _, r := range rs {
